@@ -65,12 +65,34 @@ func (val *RawXMLValue) MarshalXML(e *xml.Encoder, start xml.StartElement) error
 
 	switch tok := val.tok.(type) {
 	case xml.StartElement:
+		// The names of a captured element have already been resolved and the
+		// encoder declares the namespaces it needs by itself. Replaying the
+		// captured declarations would emit them twice and, for a prefixed
+		// element declaring another default namespace, move the element into
+		// that namespace. The encoder never un-declares a default namespace
+		// however: an element without a namespace keeps its xmlns="", and
+		// gets one below a parent which has a namespace.
+		var attr []xml.Attr
+		undeclare := tok.Name.Space == "" && start.Name.Space != ""
+		for _, a := range tok.Attr {
+			if a.Name.Space == "xmlns" {
+				continue
+			}
+			if a.Name.Space == "" && a.Name.Local == "xmlns" {
+				undeclare = undeclare || tok.Name.Space == ""
+				continue
+			}
+			attr = append(attr, a)
+		}
+		if undeclare {
+			attr = append([]xml.Attr{{Name: xml.Name{Local: "xmlns"}}}, attr...)
+		}
+		tok = xml.StartElement{Name: tok.Name, Attr: attr}
 		if err := e.EncodeToken(tok); err != nil {
 			return err
 		}
 		for _, child := range val.children {
-			// TODO: find a sensible value for the start argument?
-			if err := child.MarshalXML(e, xml.StartElement{}); err != nil {
+			if err := child.MarshalXML(e, tok); err != nil {
 				return err
 			}
 		}
